@@ -222,6 +222,15 @@ def replay_file(check, path, quiet=False):
         rep = json.load(f)
     res = check.run(rep['scenario'])
     target = (rep['violation']['component'], rep['violation']['symptom'])
+    if rep['violation'].get('symptom') == 'nondeterministic-run':
+        # the same scenario executed twice in one process (or in this fresh process, against the recorded digest)
+        res2 = check.run(rep['scenario'])
+        same_tree = rep.get('tree_hash') is not None and rep.get('tree_hash') == tree_hash()
+        differs = res2['digest'] != res['digest'] or (same_tree and rep.get('digest') is not None and rep['digest'] != res['digest'])
+        if not quiet:
+            print('replay reproduced: the same scenario gives different event logs when executed again' if differs
+                  else 'replay did NOT reproduce: two executions give the same event log')
+        return bool(differs), res
     hit = [v for v in res['violations'] if sig_of(v) == target]
     if not quiet:
         if hit:
@@ -405,7 +414,7 @@ def run_check(check, tier='quick', seed0=0, workers=None, runs=None, wall_cap=No
         if getattr(check, 'nondeterminism_is_violation', False) and not harness_errors:
             scn = check.gen(det_fail[0][0], tier)
             v = {'component': 'run', 'symptom': 'nondeterministic-run', 'trigger': det_fail[0][1], 'step': None, 'detail': msg}
-            path = write_replay(check, scn, v, None, det_fail[0][0])
+            path = write_replay(check, scn, v, {str(r['seed']): r['digest'] for r in results}.get(str(det_fail[0][0])), det_fail[0][0])
             print(f'[{pid}] {msg}')
             print(f'VIOLATION property={pid} replay={path}')
             exit_code = 1
